@@ -28,7 +28,7 @@ CHECKS['C17'] = {
     ],
     'technique': 'property-based testing (rapid) of the real copier against a model walk + reference manifest interpreter',
     'units': [
-        unit('copier', 'crunchrun_c17', '^TestVerifC17', {'shards': 16, 'checks': 400}, {'shards': 16, 'checks': 50000, 'timeout': 3000},
+        unit('copier', 'crunchrun_c17', '^TestVerifC17', {'shards': 16, 'checks': 800}, {'shards': 16, 'checks': 50000, 'timeout': 3000},
              crash_is_violation=True, env={'GOTRACEBACK': 'single'}),
     ],
 }
